@@ -193,6 +193,7 @@ type crossNode struct {
 	PeerR    *route.Router
 	PeerTx   *transmit.DirectTransmission
 	inH      http.Handler
+	peerH    http.Handler
 	stops    []func()
 }
 
@@ -271,6 +272,7 @@ func crossStartNode(o crossNodeOpts) (*crossNode, error) {
 		n.Stop()
 		return nil, fmt.Errorf("router handler not built")
 	}
+	n.peerH = ph
 	if o.WrapPeerH != nil {
 		ph = o.WrapPeerH(ph)
 	}
